@@ -78,6 +78,17 @@ CLAIMS["C06"] = dict(
     technique="static analysis: expression normal forms vs frozen specification table; sibling agreement inside ops.Call",
     design="DESIGN.md section 5, C06")
 
+CLAIMS["C07"] = dict(
+    text="Bound computation decided structurally: every class satisfying the Type protocol defines type_bound; the normal form of "
+         "each definition equals the specification row (sums: join over every element of every row; function types Copyable; qubit "
+         "Any; variables/aliases/opaque: declared bound; extension types: explicit bound or join over the TypeTypeArg arguments at "
+         "exactly the definition's indices); TypeBound.join is shown to be the least upper bound on the two-point lattice by a "
+         "finite-domain abstract interpretation with an inductive loop invariant; the serialized bound is the computed one; the "
+         "std collections agree with their bundled JSON definitions, incl. the ValueError guard dominating StaticArray construction.",
+    note="Evaluation on concrete nested types follows by structural induction from R2+R3 and is not executed.",
+    technique="static analysis: normal-form table + finite-domain abstract interpretation + CFG guard dominance + JSON table agreement",
+    design="DESIGN.md section 5, C07")
+
 NOT_APPLICABLE_REASON: dict[str, str] = {}
 
 
